@@ -103,7 +103,74 @@ func has(ev []string, vals ...string) bool {
 	return true
 }
 
+// handover: a dying coroutine whose pending __close handler yields is
+// suspended once more and then resumed by ANOTHER coroutine; when the handler
+// returns, the coroutine's error (or results) must go to the thread that
+// resumed it last, and every thread involved must end up dead.
+func handover(c *vp.Child, k0 int) {
+	for vi, v := range []struct{ name, ending, wantB string }{
+		{"error", `error("boom", 0)`, `s:"B" b:false s:"boom"`},
+		{"return", `return "ret", 2`, `s:"B" b:true s:"ret" i:2`},
+		{"error-table", `error(setmetatable({}, {__tostring = function() return "E" end}))`, `s:"B" b:false t#`},
+	} {
+		if !c.Mine(k0 + vi) {
+			continue
+		}
+		text := `local co = coroutine.create(function()
+  local v <close> = setmetatable({}, {__close = function(_, e)
+    emit("close", e ~= nil)
+    local x = coroutine.yield("from close handler")
+    emit("close resumed", x)
+  end})
+  ` + v.ending + `
+end)
+emit("main1", coroutine.resume(co))
+emit("status", coroutine.status(co))
+local B = coroutine.create(function()
+  emit("B", coroutine.resume(co, "hi from B"))
+  emit("status in B", coroutine.status(co))
+  return "B done"
+end)
+emit("main2", coroutine.resume(B))
+emit("B status", coroutine.status(B))
+emit("again", (coroutine.resume(B)))
+emit("co again", (coroutine.resume(co)))
+`
+		label := "handover:" + v.name
+		c.Begin(label, text)
+		out := eng.RunText(text, nil)
+		c.Eval(1)
+		c.NonTrivial(vp.Hash(label))
+		var got []string
+		for _, ev := range out.TraceV {
+			got = append(got, strings.Join(ev, " "))
+		}
+		want := []string{
+			fmt.Sprintf(`s:"close" b:%v`, v.name != "return"),
+			`s:"main1" b:true s:"from close handler"`,
+			`s:"status" s:"suspended"`,
+			`s:"close resumed" s:"hi from B"`,
+			v.wantB,
+			`s:"status in B" s:"dead"`,
+			`s:"main2" b:true s:"B done"`,
+			`s:"B status" s:"dead"`,
+			`s:"again" b:false`,
+			`s:"co again" b:false`,
+		}
+		ok := out.Kind == gl.OK && len(got) == len(want)
+		for i := 0; ok && i < len(want); i++ {
+			if got[i] != want[i] && !(strings.HasSuffix(want[i], "t#") && strings.HasPrefix(got[i], want[i])) {
+				ok = false
+			}
+		}
+		if !ok || len(out.Reports) > 0 {
+			c.Violation("callback-handover", label, fmt.Sprintf("a dying coroutine suspended in its __close handler and resumed by another coroutine:\n  got:  %s\n  want: %s\n  outcome: %s %s %s", strings.Join(got, " | "), strings.Join(want, " | "), out.Kind, out.ErrMsg, strings.Join(out.Reports, "; ")), text)
+		}
+	}
+}
+
 func callbacks(c *vp.Child) {
+	handover(c, 1000)
 	k := 0
 	for _, cc := range callbackConstructs {
 		for _, closeIt := range []bool{true, false} {
